@@ -430,6 +430,115 @@ fn run(case: &Case) -> Outcome {
     Ok(Pass { nontrivial: if bulk { big_partial_purge } else { !purged.is_empty() }, labels })
 }
 
+/// Exhaustive small scope for the local facts ("for all reachable sets"): every arrival sequence of 1-4 operations with
+/// distinct stamps out of five stamps from two origins spread over two forgiveness periods, keys {1,2}, insert / delete,
+/// either source, a purge after any subset of the operations and always at the end.
+/// Words: [k, purge mask, (stamp index, bits: key | kind | source) x k].
+pub struct LocalSmall;
+
+fn small_stamps() -> [Stamp; 5] {
+    let s = |secs: u64, node: u8| Stamp { secs, frac: 0, counter: 0, node };
+    [s(100_000, 1), s(100_001, 2), s(103_601, 1), s(103_700, 2), s(107_300, 1)]
+}
+
+fn small_space_with(full_k4: bool) -> Vec<Vec<u64>> {
+    let mut out = vec![];
+    for k in 1..=4usize {
+        // ordered selections of k distinct stamp indices
+        let mut sel: Vec<Vec<u64>> = vec![vec![]];
+        for _ in 0..k {
+            let mut next = vec![];
+            for v in &sel {
+                for i in 0..5u64 {
+                    if !v.contains(&i) {
+                        let mut w = v.clone();
+                        w.push(i);
+                        next.push(w);
+                    }
+                }
+            }
+            sel = next;
+        }
+        let masks: Vec<u64> = if k == 4 && !full_k4 { vec![0, 15] } else { (0..(1u64 << k)).collect() };
+        for order in &sel {
+            for bits in 0..8u64.pow(k as u32) {
+                for m in &masks {
+                    let mut w = vec![k as u64, *m];
+                    for (j, si) in order.iter().enumerate() {
+                        w.push(*si);
+                        w.push((bits >> (3 * j)) & 7);
+                    }
+                    out.push(w);
+                }
+            }
+        }
+    }
+    out
+}
+
+pub fn small_space() -> Vec<Vec<u64>> {
+    small_space_with(true)
+}
+
+pub fn small_space_thorough() -> Vec<Vec<u64>> {
+    small_space_with(true)
+}
+
+impl Prop for LocalSmall {
+    type Case = Case;
+
+    fn id(&self) -> &'static str {
+        "C08"
+    }
+
+    fn part(&self) -> &'static str {
+        "local-small-scope"
+    }
+
+    fn width(&self) -> usize {
+        10
+    }
+
+    fn gen(&self, src: &mut Src) -> Case {
+        let stamps = small_stamps();
+        let k = src.word().clamp(1, 4) as usize;
+        let mask = src.word();
+        let mut steps = vec![];
+        let mut seen = std::collections::BTreeSet::new();
+        for j in 0..k {
+            let si = (src.word() % 5) as usize;
+            let bits = src.word();
+            if !seen.insert(si) {
+                continue; // cannot occur in the enumerated space
+            }
+            steps.push(Step::Op(SetOp { key: 1 + (bits & 1), stamp: stamps[si], delete: bits & 2 != 0 }, ((bits >> 2) & 1) as usize));
+            if (mask >> j) & 1 == 1 {
+                steps.push(Step::Purge);
+            }
+        }
+        steps.push(Step::Purge);
+        Case { steps }
+    }
+
+    fn run(&self, case: &Case) -> Outcome {
+        run(case)
+    }
+
+    fn describe(&self, case: &Case) -> Value {
+        Local.describe(case)
+    }
+
+    fn rule(&self) -> &'static str {
+        "exhaustive: every arrival sequence of 1-4 operations with distinct stamps out of five (two origins, 100000 s ... 107300 s: \
+         two forgiveness periods), keys {1,2}, insert / delete, source 0 / 1, a purge after every subset of the operations \
+         and one at the end; same oracle as part local"
+    }
+}
+
 pub fn parts() -> Vec<Box<dyn DynPart>> {
-    vec![Box::new(Gen::new(Local, 1_000_000, 60_000_000)), Box::new(Gen::new(LocalBulk, 10_000, 500_000))]
+    vec![
+        Box::new(Gen::new(Local, 1_000_000, 60_000_000)),
+        Box::new(Gen::new(LocalBulk, 10_000, 500_000)),
+        Box::new(Gen::listed2(LocalSmall, small_space, small_space_thorough)),
+    ]
 }
